@@ -14,6 +14,7 @@ import props_c20
 import props_c12
 import props_c18
 import props_c07
+import props_c09
 import props_c19
 import props_c04
 import vcheck
@@ -214,7 +215,7 @@ PROPS = {
                 "failing conversion, division by zero); a process crash of the harness is a violation",
     },
     "C09": {
-        "module": "Arca.Props.C09", "theorems": ['Arca.Props.C09.raw_state_window_deploy_race', 'Arca.Props.C09.raw_state_window_enabling', 'Arca.Props.C09.raw_state_window_enabling_report_in_flight', 'Arca.Props.C09.raw_state_window_enabling_provided_while_parked', 'Arca.Props.C09.raw_state_window_starting', 'Arca.Props.C09.raw_state_window_starting_provided_while_parked', 'Arca.Props.C09.raw_state_window_completion_in_flight', 'Arca.Props.C09.raw_state_window_closing', 'Arca.Props.C09.raw_state_window_closing_owes_completion', 'Arca.Props.C09.raw_state_unsound', 'Arca.Props.C09.raw_state_windows_exhaustive', 'Arca.Props.C09.raw_deploy_wait_partial', 'Arca.Props.C09.counted_waiting_not_cancelled', 'Arca.Props.C09.deploy_wait_is_sound', 'Arca.Props.C09.detector_sound_waiting', 'Arca.Props.C09.settled_is_silent', 'Arca.Props.C09.detector_sound_finished_partial', 'Arca.Props.C09.detector_sound_finished', 'Arca.Props.C09.harmless_is_inert', 'Arca.Props.C09.detector_sound', 'Arca.Props.C09.detector_sound_counterexample_failure_tail', 'Arca.Props.C09.detector_sound_counterexample_without_marking', 'Arca.Props.C09.failure_tail_settled_with_marking', 'Arca.Props.C09.loop_marks_remaining_stages_at_completion', 'Arca.Props.C09.refinement_owes_check', 'Arca.Props.C09.owed_check_is_delivered_or_kept', 'Arca.Props.C09.owed_check_runs', 'Arca.Props.C09.no_lost_check', 'Arca.Props.C09.detector_needs_quiescence_for_three_polls', 'Arca.Props.C09.one_active_poll_stops_detector', 'Arca.Props.C09.short_window_cannot_trigger'], "instrumented": True,
+        "module": "Arca.Props.C09", "theorems": ['Arca.Props.C09.raw_state_window_deploy_race', 'Arca.Props.C09.raw_state_window_enabling', 'Arca.Props.C09.raw_state_window_enabling_report_in_flight', 'Arca.Props.C09.raw_state_window_enabling_provided_while_parked', 'Arca.Props.C09.raw_state_window_starting', 'Arca.Props.C09.raw_state_window_starting_provided_while_parked', 'Arca.Props.C09.raw_state_window_completion_in_flight', 'Arca.Props.C09.raw_state_window_closing', 'Arca.Props.C09.raw_state_window_closing_owes_completion', 'Arca.Props.C09.raw_state_unsound', 'Arca.Props.C09.raw_state_windows_exhaustive', 'Arca.Props.C09.raw_deploy_wait_partial', 'Arca.Props.C09.counted_waiting_not_cancelled', 'Arca.Props.C09.deploy_wait_is_sound', 'Arca.Props.C09.detector_sound_waiting', 'Arca.Props.C09.settled_is_silent', 'Arca.Props.C09.detector_sound_finished_partial', 'Arca.Props.C09.detector_sound_finished', 'Arca.Props.C09.harmless_is_inert', 'Arca.Props.C09.detector_sound', 'Arca.Props.C09.detector_sound_counterexample_failure_tail', 'Arca.Props.C09.detector_sound_counterexample_without_marking', 'Arca.Props.C09.failure_tail_settled_with_marking', 'Arca.Props.C09.loop_marks_remaining_stages_at_completion', 'Arca.Props.C09.refinement_owes_check', 'Arca.Props.C09.owed_check_is_delivered_or_kept', 'Arca.Props.C09.owed_check_runs', 'Arca.Props.C09.no_lost_check', 'Arca.Props.C09.detector_needs_quiescence_for_three_polls', 'Arca.Props.C09.one_active_poll_stops_detector', 'Arca.Props.C09.short_window_cannot_trigger', 'Arca.Props.C09.starting_counts_as_progress', 'Arca.Props.C09.starting_step_stops_detector', 'Arca.Props.C09.foreach_items_handed_over_as_running', 'Arca.Props.C09.foreach_loop_never_waits_while_working'], "instrumented": True,
         "pins": ["workflow_workflow_loopState_checkForDeadlocks", "workflow_workflow_loopState_countStates",
                  "workflow_workflow_loopState_onStageComplete", "step_plugin_provider_runningStep_State",
                  "step_plugin_provider_runningStep_CurrentStage", "step_plugin_provider_runningStep_currentStageInputAvailable",
@@ -264,11 +265,16 @@ PROPS = {
 
 PROPS["C18"] = props_c18.SPEC
 props_c07.extend(PROPS["C07"])
+props_c09.extend(PROPS["C09"])
 PROPS["C11"] = props_c11.SPEC
 PROPS["C12"] = props_c12.SPEC
 PROPS["C10"] = props_c10.SPEC_C10
 PROPS["C16"] = props_c10.SPEC_C16
 PROPS["C13"] = props_c13.SPEC
+PROPS["C06"]["streams"].append(props_c13.S_C06_FOREACH)
+PROPS["C06"]["rule"] += props_c13.C06_FOREACH_RULE
+PROPS["C06"]["theorems"] += props_c13.C06_FOREACH_THEOREMS
+PROPS["C06"]["pins"] += props_c13.C06_FOREACH_PINS
 PROPS["C08"] = props_c08.SPEC
 PROPS["C17"] = props_c17.SPEC
 PROPS["C20"] = props_c20.SPEC
